@@ -89,4 +89,77 @@ theorem dispatch_imul_rr (c : Model.X86.Ctx) (row : Row) (k : RegKind) (i0 i1 : 
       emitX86R (addPrefixBySize 0x1AF#32 (kindSize k)) 0#32 (r32 i0) (r32 i1) 0 0 := by
   rcases hk with h | h | h <;> subst h <;> simp [dispatch, henc, sig3, Op.kind, Op.id, Op.rmSize, rtypeOf, kindSize]
 
+/-! ### class X86Rot: shift / rotate a register by an 8-bit immediate -/
+
+def legRuleDOk (r : Rule) (nimm pp d : Nat) : Bool :=
+  r.modes &&& 2 != 0 && (r.space == 0 && (r.pp &&& 8 == 0 && (((r.pp &&& 1 != 0 || r.osz == 16) == (pp == 1)) && (((r.pp &&& 2 != 0) == (pp == 2)) &&
+  (((r.pp &&& 4 != 0) == (pp == 3)) && (pp < 4 && (!r.ri && ((r.modKind == 1 || r.modKind == 2) && (r.modr == d && (r.modrm == 8 &&
+  (r.immBytes == nimm && (r.relBytes == 0 && (!r.moff && (!r.a67 && !r.immRev))))))))))))))
+
+theorem legRuleDOk_spec (r : Rule) (n pp d : Nat) (h : legRuleDOk r n pp d = true) : LegRuleD r n pp d := by
+  simp only [legRuleDOk, Bool.and_eq_true, Bool.or_eq_true, beq_iff_eq, bne_iff_ne, ne_eq, Bool.not_eq_true', decide_eq_true_eq] at h
+  obtain ⟨hmodes, hs, hpp8, h66, hF3, hF2, hpplt, hri, hmk, hmr, hmrm, himm, hrel, hmoff, ha67, hrev⟩ := h
+  exact ⟨hmodes, hs, hpp8, by simpa using h66, by simpa using hF3, by simpa using hF2, hpplt, hri, hmk, hmr, hmrm, himm, hrel, hmoff, ha67, hrev⟩
+
+/-- the opcode word of the shift-by-imm8 form: `(main opcode by size) - 0x10` (D0/D1 -> C0/C1), and the `/digit` -/
+def finalOpRot (e : Entry) : BitVec 32 := addArithBySize e.mainOp (kindSize (e.kinds.getD 0 .none)) - 0x10#32
+def digitOf (e : Entry) : BitVec 32 := (e.mainOp >>> 18) &&& 7#32
+
+def gpKindOk (k : RegKind) : Bool := k == .gpb || k == .gpbhi || plainKind k
+
+theorem gpKindOk_spec (k : RegKind) (h : gpKindOk k = true) : k = .gpb ∨ k = .gpbhi ∨ PlainKind k := by
+  simp only [gpKindOk, Bool.or_eq_true, beq_iff_eq] at h
+  rcases h with (h | h) | h
+  · exact Or.inl h
+  · exact Or.inr (Or.inl h)
+  · exact Or.inr (Or.inr (plainKind_spec _ h))
+
+def entryOkRot (e : Entry) : Bool :=
+  match e.rule.ops, e.kinds with
+  | [f0, f3], [k0] =>
+    e.enc == 0x37 && (legRuleDOk e.rule 1 ((finalOpRot e >>> 21) &&& 3#32).toNat (digitOf e).toNat && (legAgreeOk e.rule (finalOpRot e) &&
+    (f0.role == .rm && (f3.role == .imm && (immBitsOf f3 == 8 && (!(immSignOf f3 == 1) && (gpKindOk k0 &&
+    (noFix f0 && formOpMatches e.rule.oszEff f0 (.reg k0 0))))))))) 
+  | _, _ => false
+
+theorem rot_entries_ok : lrotChunks.all (fun c => c.all entryOkRot) = true := by decide +kernel
+
+/-- **front_cls_correct, class X86Rot, `op reg, imm8`** (rol / ror / rcl / rcr / shl / shr / sar, imm8 ≠ 1): ALL registers of ALL sizes
+including AH..BH and SPL..DIL, every immediate the form admits. (imm8 = 1 selects the separate shift-by-1 opcode, not covered here.) -/
+theorem front_cls_correct_rot_imm (e : Entry) (ch : List Entry) (hch : ch ∈ lrotChunks) (he : e ∈ ch)
+    (ctx : Spec.X86.Ctx) (r0 : BitVec 32) (imm : BitVec 64) (hm64 : ctx.mode64 = true) (h0 : r0 < 16#32)
+    (hhi : ∀ k0, e.kinds = [k0] → k0 = .gpbhi → r0 < 4#32)
+    (himm : ∀ f3, e.rule.ops[1]? = some f3 → formOpMatches e.rule.oszEff f3 (.imm imm) = true)
+    (bytes : List (BitVec 8)) :
+    ∃ k0, e.kinds = [k0] ∧
+      (emitX86R (finalOpRot e) (fix1 k0 r0).1 (digitOf e) (fix1 k0 r0).2 imm 1 = .ok bytes →
+        formOk ctx e.rule [.reg k0 r0.toNat, .imm imm] {} bytes = true) := by
+  have hok := mem_chunks_ok rot_entries_ok e ch hch he
+  unfold entryOkRot at hok
+  split at hok
+  · rename_i f0 f3 k0 hops hkinds
+    simp only [Bool.and_eq_true, beq_iff_eq, Bool.not_eq_true'] at hok
+    obtain ⟨-, hR, hA, ra, r3, hib, hsg, hk, n0, m0⟩ := hok
+    obtain ⟨A, hmask⟩ := legAgreeOk_spec _ _ hA
+    have R := legRuleDOk_spec _ _ _ _ hR
+    have m3 : formOpMatches e.rule.oszEff f3 (.imm imm) = true := himm f3 (by rw [hops]; rfl)
+    have hal : alignOps e.rule.oszEff e.rule.ops [.reg k0 r0.toNat, .imm imm] = some [(f0, some (.reg k0 r0.toNat)), (f3, some (.imm imm))] := by
+      rw [hops]
+      exact alignOps2 _ _ _ _ _ (by rw [formOpMatches_reg_nofix _ _ _ _ n0]; exact m0) m3
+    refine ⟨k0, hkinds, ?_⟩
+    intro hb
+    have hd : digitOf e < 8#32 := by simp only [digitOf]; bv_decide
+    exact rmImm8_formOk ctx e.rule (finalOpRot e) (digitOf e) r0 k0 f0 f3 imm hm64 (by simpa using R.hmodes) hmask (gpKindOk_spec _ hk) hd h0
+      (hhi k0 hkinds) R A ra r3 hib hsg hal bytes hb
+  · simp at hok
+
+/-- the class switch reaches exactly this emission for `op reg, imm` with (imm & 0xFF) ≠ 1 -/
+theorem dispatch_rot_imm (c : Model.X86.Ctx) (row : Row) (k0 : RegKind) (i0 : Nat) (imm : BitVec 64) (henc : row.encoding = 0x37)
+    (hk : k0 = .gpb ∨ k0 = .gpbhi ∨ k0 = .gpw ∨ k0 = .gpd ∨ k0 = .gpq) (hne : imm &&& 0xFF#64 ≠ 1#64) :
+    dispatch c row 0#32 (.reg (rtypeOf k0) i0) (.imm imm) .none .none =
+      emitX86R (addArithBySize row.mainOp (kindSize k0) - 0x10#32) (fix1 k0 (r32 i0)).1 ((row.mainOp >>> 18) &&& 7#32) (fix1 k0 (r32 i0)).2 (imm &&& 0xFF#64) 1 := by
+  have hne' : (imm &&& 0xFF#64 == 1#64) = false := by simpa using hne
+  rcases hk with h | h | h | h | h <;> subst h <;>
+    simp [dispatch, henc, sig3, Op.kind, Op.id, Op.rmSize, Op.immVal, rtypeOf, kindSize, fix1, fixK, fixupGpb, Op.isGp8Hi, hne']
+
 end AsmjitVerif.Props.C01
